@@ -560,7 +560,7 @@ func TestC12FreshKeyBurst(t *testing.T) {
 // to return, and the datatype must stay usable for everybody: nothing may keep the lock.
 func TestC12Abandoned(t *testing.T) {
 	col := stats.New("C12", t.Name(),
-		"one key (drawn kind) with 2-3 clients on a drawn deployment; the gate of the fake MongoDB holds the k-th (drawn, 1-6) database command that the next request of client 0 (for documents in half of the cases: a REST patch) issues for the datatype; while it is held the caller cancels the request's context (drawn: before the command is released / the command is released first and the cancellation follows at once / no cancellation at all, as control); then every client, client 0 included, issues operations and syncs the key one after the other; "+
+		"one key (drawn kind) with 2-3 clients on a drawn deployment; the gate of the fake MongoDB holds the k-th (drawn, 1-7) database command naming the datatype or the client (the client lookup precedes the lock) that the next request of client 0 (for documents in half of the cases: a REST patch) issues for the datatype; while it is held the caller cancels the request's context (drawn: before the command is released / the command is released first and the cancellation follows at once / no cancellation at all, as control); in half of the cases the other clients send requests meanwhile (queueing for the lock) and give up 0-3000 us (drawn) after the release; then every client, client 0 included, issues operations and syncs the key one after the other; "+
 			"oracle: the abandoned call returns within the deadline, every later sync is answered within the deadline and none is refused for the lock, at most one later request per client is refused at all (the roll-forward of a half-stored push refuses the request that discovers it), log invariants and convergence at the end; non-trivial = the request was cancelled while one of its commands was held; distinct = kind, k, mode, deployment, operation counts")
 	checkProp(t, "C12", col, func(c *caseCtx) {
 		rt := c.rt
@@ -582,7 +582,7 @@ func TestC12Abandoned(t *testing.T) {
 		defer w.close()
 		defer w.env.Mongo.DisableGate()
 		nc := rapid.IntRange(2, 3).Draw(rt, "clients")
-		holdAt := rapid.IntRange(1, 6).Draw(rt, "hold_command")
+		holdAt := rapid.IntRange(1, 7).Draw(rt, "hold_command")
 		mode := rapid.SampledFrom([]string{"cancel-then-release", "cancel-then-release", "release-then-cancel", "no-cancel"}).Draw(rt, "mode")
 		nops := rapid.IntRange(0, 3).Draw(rt, "ops_in_abandoned_request")
 		// documents: the abandoned request is a REST patch in half of the cases
@@ -608,10 +608,13 @@ func TestC12Abandoned(t *testing.T) {
 		}
 		w.env.WaitBackground(3 * time.Second)
 		duid := []byte(k.duid)
+		cuid0 := []byte(cls[0].pc.CUID())
 		seen := 0
+		// commands that name the datatype, or client 0 (its lookup comes before the handler takes the lock: a
+		// request abandoned there reaches the lock with a context that is already done)
 		w.env.Mongo.EnableGate(func(cmd *fakemongo.Cmd) bool {
 			b, _ := bson.Marshal(cmd.Body)
-			if !bytes.Contains(b, duid) {
+			if !bytes.Contains(b, duid) && !bytes.Contains(b, cuid0) {
 				return false
 			}
 			seen++
@@ -636,10 +639,42 @@ func TestC12Abandoned(t *testing.T) {
 		}()
 		held := w.env.Mongo.WaitPending(1, 2*time.Second)
 		heldVerb := ""
+		// waiters: the other clients send a request for the key while client 0's is held (they queue for the lock
+		// if it is taken) and give up a drawn number of microseconds after the held command is released
+		type waiter struct {
+			cl     *l1Client
+			ex     *exchange
+			cancel gocontext.CancelFunc
+			delay  time.Duration
+			done   chan struct{}
+		}
+		var waiters []*waiter
+		if held && rapid.Bool().Draw(rt, "waiters") {
+			for _, cl := range cls[1:] {
+				sim.Exec(kind, cl.dts[k.Name].dt, c06CheapCall(kind, 30+cl.idx))
+				wctx, wcancel := gocontext.WithCancel(gocontext.Background())
+				wt := &waiter{cl: cl, cancel: wcancel, done: make(chan struct{}),
+					delay: time.Duration(rapid.SampledFrom([]int{0, 20, 60, 150, 400, 1000, 3000}).Draw(rt, fmt.Sprintf("waiter%d_gives_up_after_us", cl.idx))) * time.Microsecond}
+				wt.ex = &exchange{req: cl.pc.BuildRequest(), errPacks: map[string]string{}}
+				waiters = append(waiters, wt)
+				go func() {
+					defer close(wt.done)
+					wt.ex.resp, wt.ex.rpcErr, wt.ex.timedOut = w.env.ProcessPushPullCtx(wctx, wt.ex.req, l1Deadline)
+				}()
+			}
+			time.Sleep(2 * time.Millisecond) // let them reach the lock
+		}
+		giveUp := func() {
+			for _, wt := range waiters {
+				wt := wt
+				go func() { time.Sleep(wt.delay); wt.cancel() }()
+			}
+		}
 		if held {
 			if p := w.env.Mongo.Pending(); len(p) > 0 {
 				heldVerb = p[0].Verb
 			}
+			defer giveUp() // (cancels are idempotent; makes sure no context outlives the case)
 			switch mode {
 			case "cancel-then-release":
 				cancel()
@@ -656,8 +691,19 @@ func TestC12Abandoned(t *testing.T) {
 			default:
 				w.env.Mongo.DisableGate()
 			}
+			giveUp()
 		} else {
 			w.env.Mongo.DisableGate()
+		}
+		for _, wt := range waiters {
+			select {
+			case <-wt.done:
+			case <-time.After(l1Deadline + 2*time.Second):
+				c.failf("the request of client %d, whose caller gave up while it waited behind another request, never returned", wt.cl.idx)
+			}
+			if wt.ex.timedOut {
+				c.failf("the request of client %d, whose caller gave up while it waited behind another request, was not answered within %v", wt.cl.idx, l1Deadline)
+			}
 		}
 		select {
 		case <-done:
@@ -676,6 +722,12 @@ func TestC12Abandoned(t *testing.T) {
 			w.record(cls[0], exA)
 			if exA.rpcErr == nil {
 				w.apply(cls[0], exA)
+			}
+		}
+		for _, wt := range waiters {
+			w.record(wt.cl, wt.ex)
+			if wt.ex.rpcErr == nil {
+				w.apply(wt.cl, wt.ex)
 			}
 		}
 		w.env.WaitBackground(5 * time.Second)
@@ -706,7 +758,7 @@ func TestC12Abandoned(t *testing.T) {
 					}
 					refused++
 					refusals++
-					if refused > 1 || mode == "no-cancel" || !held {
+					if refused > 1 || ((mode == "no-cancel" || !held) && len(waiters) == 0) {
 						c.failf("client %d: sync refused (attempt %d) after the abandoned request (held command: %s, mode %s): %s", ci, attempt+1, heldVerb, mode, e)
 					}
 				}
@@ -739,6 +791,6 @@ func TestC12Abandoned(t *testing.T) {
 			c.failf("%v", err)
 		}
 		cancelled := held && mode != "no-cancel"
-		col.Case(cancelled, fmt.Sprint(kind, holdAt, mode, dep, nops, nc, order), []string{"mode=" + mode, fmt.Sprintf("held=%v", held), "held-command=" + heldVerb, dep, fmt.Sprintf("later-refusals=%d", refusals), fmt.Sprintf("abandoned-rest-patch=%v", viaPatch)}, func() interface{} { return c.j.Header })
+		col.Case(cancelled, fmt.Sprint(kind, holdAt, mode, dep, nops, nc, order), []string{"mode=" + mode, fmt.Sprintf("held=%v", held), "held-command=" + heldVerb, dep, fmt.Sprintf("later-refusals=%d", refusals), fmt.Sprintf("abandoned-rest-patch=%v", viaPatch), fmt.Sprintf("waiters-that-give-up=%d", len(waiters))}, func() interface{} { return c.j.Header })
 	})
 }
